@@ -11,7 +11,7 @@ ALLOWED_AXIOMS = {'propext', 'Classical.choice', 'Quot.sound'}
 TRUSTED_BASE = [
     "Lean 4.33.0 kernel; axioms limited to propext, Classical.choice, Quot.sound (audited with #print axioms on every theorem of the property file); no sorry/admit/native_decide/bv_decide/own axioms",
     "hand-written Lean model of jub0bs/cors (lean/CorsVerif/Model); tied to /repo by (a) Gen/Facts.lean regenerated from the working tree by harness/extract and (b) the differential correspondence harness (harness/inject, built into /repo's module with go build -overlay) whose coverage is reported below",
-    "library behaviour modelled, not verified: x/net idna (oracle for xn-- labels, plain-ASCII rule modelled), publicsuffix (oracle), net/netip (IPv4 modelled, IPv6 oracle), httpguts token table, net/http.Header Add/Set, maps.Copy, errors.Join, sync.RWMutex, Go memory model, range-over-func",
+    "library behaviour modelled, not verified: x/net idna (oracle for xn-- labels, plain-ASCII rule modelled), publicsuffix (oracle), net/netip (IPv4 and IPv6 text modelled in Model/Origins.lean and Model/Net.lean; the driver compares the IPv6 model with the library's answers on every host the harness reports and refuses to answer when they differ), httpguts token table, net/http.Header Add/Set, maps.Copy, errors.Join, sync.RWMutex, Go memory model, range-over-func",
     "specifications written by hand from the documentation and the standards, trusted as readings: Spec/Denote (what a pattern denotes), Spec/Prohibitions (what a Config may not be), Spec/ACRH (which header lists are approved), Spec/Browser (CORS-preflight fetch, CORS check, PNA), Spec/Grammar (documented pattern grammar), Spec/Fetch (name tables)",
     "pinned/Facts.lean: the facts of the verified tree; when the regenerated facts differ, the suites are also compared against the model built from the pinned facts",
     "the Lean compiler for the native driver (used for the tie only, not for any theorem); the Python runner and judges (tools/) that project, compare and classify outputs",
@@ -346,6 +346,7 @@ RULES = {
     'treex': 'small-scope exhaustive: every ordered selection of up to 3 (thorough: 4) of 12 mutually related patterns (a host, its subdomains, the wildcards over them, other scheme, explicit and wildcard ports) inserted in that order, 48 fixed probes, Elems; distinct by case hash',
     'validatex': 'small-scope exhaustive: every sequence of up to 2 (thorough: 3) atoms in one list field at a time (8 request-header atoms x credentialed, 8 method atoms, 7 response-header atoms x credentialed, 10 origin atoms (up to 2) x credentialed x PNA modes x both tolerate switches) and every combination of 7 max-age and 9 status values, through NewMiddleware; distinct by case hash',
     'servex': 'small-scope exhaustive: 8 configurations (one per decision regime) x method {OPTIONS, GET, options} x 7 Origin atoms x 8 ACRM atoms x 6 (thorough: 9) ACRH atoms x 3 ACRPN atoms x upstream Vary or not x debug; non-trivial = the middleware wrote a status or an Access-Control-* header; distinct by case hash',
+    'ip6x': 'small-scope exhaustive on IPv6 text between brackets: every sequence of up to 3 (thorough: 4) tokens from {0 1 12 abcd ABCD 00 0abc 12345 g : :: . 1.2.3.4 255 256 01 % eth0 ffff 7f00}, and every address text of up to 8 fields over {0, 1, ffff} with `::` at every position or absent, with and without an IPv4 tail, through ParsePattern (and Parse); the model answers with its own model of net/netip and the driver compares that model with the library on every reported host; distinct by case hash',
     'history': 'random operation sequences (SetDebug, Reconfigure nil/valid/invalid/Config()) over 1-3 middlewares with probes after every step; non-trivial = state-changing or observing operation; distinct by case hash',
 }
 
@@ -444,7 +445,8 @@ PROPS = {
     'C11': dict(suites=[('serve', 6000, 150000), ('history', 120, 3000), ('servex', 1, 2)], cmps=[C('serve', 'c11', 'spec'), C('history', 'c11', 'spec'), C('servex', 'c11', 'spec')]),
     'C12': dict(suites=[('history', 150, 4000, ('-adversarial',)), ('serve', 2000, 50000, ('-adversarial',))],
                 cmps=[C('history', 'dec', 'spec'), C('serve', 'dec', 'spec')]),
-    'C13': dict(suites=[('lex', 4000, 150000), ('lexx', 3, 4)], cmps=[C('lex', 'full', 'tie', only=('pattern',)), C('lex', 'full', 'tie', only=('parse',)),
+    'C13': dict(suites=[('lex', 4000, 150000), ('lexx', 3, 4), ('ip6x', 3, 4)], cmps=[C('ip6x', 'full', 'tie', only=('pattern',)), C('ip6x', 'full', 'tie', only=('parse',)),
+                                                                         C('lex', 'full', 'tie', only=('pattern',)), C('lex', 'full', 'tie', only=('parse',)),
                                                                          C('lexx', 'full', 'tie', only=('pattern',)), C('lexx', 'full', 'tie', only=('parse',))]),
     'C14': dict(suites=[('acrh', 3000, 150000), ('serve', 2000, 50000), ('acrhx', 4, 5), ('servex', 1, 2)], cmps=[C('acrh', 'full', 'spec'), C('serve', 'bitsH', 'spec'), C('acrhx', 'full', 'spec'), C('servex', 'bitsH', 'spec')]),
     # order independence of Origins is a property of the tree: its tie belongs to the check
@@ -453,8 +455,8 @@ PROPS = {
     # "debug off" is a state of the documented state machine (C09): histories belong to the check
     'C16': dict(suites=[('serve', 8000, 200000), ('history', 150, 4000), ('servex', 1, 2)], cmps=[C('serve', 'c16', 'tie'), C('history', 'c16h', 'tie'), C('servex', 'c16', 'tie')]),
     'C17': dict(suites=[('lex', 1000, 30000), ('tree', 500, 20000), ('acrh', 1000, 30000), ('validate', 1500, 50000),
-                        ('serve', 2000, 60000), ('errors', 50, 1000), ('history', 50, 1000), ('lexx', 3, 4), ('acrhx', 4, 5), ('treex', 3, 4), ('validatex', 2, 3), ('servex', 1, 2)],
-                cmps=[C(s, 'panic', 'spec') for s in ('lex', 'tree', 'acrh', 'validate', 'serve', 'errors', 'history', 'lexx', 'acrhx', 'treex', 'validatex', 'servex')]),
+                        ('serve', 2000, 60000), ('errors', 50, 1000), ('history', 50, 1000), ('lexx', 3, 4), ('acrhx', 4, 5), ('treex', 3, 4), ('validatex', 2, 3), ('servex', 1, 2), ('ip6x', 3, 4)],
+                cmps=[C(s, 'panic', 'spec') for s in ('lex', 'tree', 'acrh', 'validate', 'serve', 'errors', 'history', 'lexx', 'acrhx', 'treex', 'validatex', 'servex', 'ip6x')]),
     'C18': dict(suites=[('allocs', 1, 2), ('serve', 1000, 20000)], cmps=[C('allocs', 'full', 'spec'), C('serve', 'dec', 'tie')], level='other',
                 explanation='PARTIAL (category other): a Lean cost-model theorem (at most 4 allocating header primitives per request, independent of all sizes), '
                             'regenerated loop/install facts proved by decide (no allocating construct and only allow-listed callees inside loops on the request path), and measured conformance: '
